@@ -6,7 +6,7 @@ Import ListNotations.
 From CAres.Base Require Import Outcome.
 From CAres.Gen Require Import Consts.
 From CAres.Core Require Import LifecycleMonitor Lifecycle Lifecycle_inv Lifecycle_proofs Lifecycle_tokens Lifecycle_tokens_proofs
-  Lifecycle_shape Lifecycle_cancel Lifecycle_cancel_proofs.
+  Lifecycle_shape Lifecycle_cancel Lifecycle_cancel_proofs Lifecycle_status.
 
 Definition cacs (s : state) : Prop := complete_at_cancel (rev (st_trace s)).
 
@@ -86,15 +86,146 @@ Proof. intros t. rewrite <- !in_req_toks. rewrite <- in_rev. tauto. Qed.
 Lemma f2_nil_l {A B} (P : A -> B -> Prop) l : Forall2 P l [] -> l = [].
 Proof. intros H. inversion H. reflexivity. Qed.
 
+(* ---- the status clauses on traces (oldest event first) ---- *)
+Lemma app_eq_app' {A} (x1 : list A) : forall x2 y1 y2, x1 ++ x2 = y1 ++ y2 ->
+  exists l, (x1 = y1 ++ l /\ y2 = l ++ x2) \/ (y1 = x1 ++ l /\ x2 = l ++ y2).
+Proof.
+  induction x1 as [|a x1 IH]; intros x2 y1 y2 E; simpl in E.
+  - exists y1. right. auto.
+  - destruct y1 as [|b y1]; simpl in E.
+    + exists (a :: x1). left. auto.
+    + inversion E; subst. destruct (IH _ _ _ H1) as [l [[E1 E2]|[E1 E2]]]; exists l; [left|right]; subst; auto.
+Qed.
+
+Definition cclosed (tr : list event) : Prop := forall before mid, tr = before ++ EvCancelBegin :: mid -> In EvCancelEnd mid.
+Definition nocc (l : list event) : Prop := ~ In EvCancelBegin l /\ ~ In EvCancelEnd l.
+
+Lemma notop_nocc l : (forall e, In e l -> top_ev e = false) -> nocc l.
+Proof. intros H. split; intros Hin; specialize (H _ Hin); discriminate. Qed.
+
+(* a callback between a CancelBegin that is followed by its CancelEnd within tr and ... *)
+Lemma cb_inside tr before b' mid t st post nw :
+  tr = before ++ EvCancelBegin :: b' -> In EvCancelEnd b' -> ~ In EvCancelEnd mid ->
+  mid ++ EvCb t st :: post = b' ++ nw -> exists post', b' = mid ++ EvCb t st :: post'.
+Proof.
+  intros Et Hce Hn E. destruct (app_eq_app' _ _ _ _ E) as [l [[E1 E2]|[E1 E2]]].
+  - exfalso. apply Hn. rewrite E1. apply in_or_app. left. exact Hce.
+  - destruct l as [|x l].
+    + exfalso. apply Hn. rewrite app_nil_r in E1. rewrite <- E1. exact Hce.
+    + inversion E2; subst. exists l. reflexivity.
+Qed.
+
+Lemma sac_app tr nw : status_at_cancel tr -> cclosed tr -> nocc nw ->
+  status_at_cancel (tr ++ nw) /\ cclosed (tr ++ nw).
+Proof.
+  intros Hs Hc [Hn1 Hn2]. split.
+  - intros before mid t st post E Hm1 Hm2 Ht.
+    assert (E' : tr ++ nw = before ++ EvCancelBegin :: (mid ++ EvCb t st :: post)) by exact E.
+    destruct (app_split_notin _ _ _ _ _ E' Hn1) as [b' [E1 E2]].
+    destruct (cb_inside tr before b' mid t st post nw E1 (Hc _ _ E1) Hm2 E2) as [post' Eb].
+    apply (Hs before mid t st post'); auto. rewrite E1, Eb. reflexivity.
+  - intros before mid E. destruct (app_split_notin _ _ _ _ _ E Hn1) as [b' [E1 E2]].
+    rewrite E2. apply in_or_app. left. exact (Hc _ _ E1).
+Qed.
+
+Lemma sac_bracket tr nw : status_at_cancel tr -> cclosed tr -> nocc nw ->
+  (forall t st, In (EvCb t st) nw -> In (EvReq t) tr -> st = ST_CANCELLED) ->
+  status_at_cancel (tr ++ EvCancelBegin :: nw ++ [EvCancelEnd]) /\ cclosed (tr ++ EvCancelBegin :: nw ++ [EvCancelEnd]).
+Proof.
+  intros Hs Hc [Hn1 Hn2] Hnew.
+  assert (Hcb : ~ In EvCancelBegin (nw ++ [EvCancelEnd])).
+  { intros H. apply in_app_or in H. destruct H as [H|[H|[]]]; [contradiction|discriminate]. }
+  split.
+  - intros before mid t st post E Hm1 Hm2 Ht.
+    assert (E' : tr ++ EvCancelBegin :: (nw ++ [EvCancelEnd]) = before ++ EvCancelBegin :: (mid ++ EvCb t st :: post)) by exact E.
+    destruct (app_eq_app' _ _ _ _ E') as [l [[E1 E2]|[E1 E2]]].
+    + destruct l as [|x l].
+      * (* the bracket of this step *)
+        rewrite app_nil_r in E1. subst before. simpl in E2. inversion E2 as [E3].
+        apply (Hnew t st); auto.
+        assert (Hin : In (EvCb t st) (nw ++ [EvCancelEnd])) by (rewrite <- E3; apply in_or_app; right; left; reflexivity).
+        apply in_app_or in Hin. destruct Hin as [Hin|[Hin|[]]]; [exact Hin|discriminate].
+      * (* an earlier one *)
+        inversion E2; subst x.
+        destruct (cb_inside tr before l mid t st post (EvCancelBegin :: nw ++ [EvCancelEnd]) E1 (Hc _ _ E1) Hm2 H1) as [post' Eb].
+        apply (Hs before mid t st post'); auto. rewrite E1, Eb. reflexivity.
+    + destruct l as [|x l].
+      * rewrite app_nil_r in E1. subst before. simpl in E2. inversion E2 as [E3].
+        apply (Hnew t st); auto.
+        assert (Hin : In (EvCb t st) (nw ++ [EvCancelEnd])) by (rewrite E3; apply in_or_app; right; left; reflexivity).
+        apply in_app_or in Hin. destruct Hin as [Hin|[Hin|[]]]; [exact Hin|discriminate].
+      * exfalso. inversion E2; subst x. apply Hcb. rewrite H1. apply in_or_app. right. left. reflexivity.
+  - intros before mid E.
+    destruct (app_eq_app' _ _ _ _ E) as [l [[E1 E2]|[E1 E2]]].
+    + destruct l as [|x l].
+      * simpl in E2. inversion E2. apply in_or_app. right. left. reflexivity.
+      * inversion E2; subst. apply in_or_app. right. right. apply in_or_app. right. left. reflexivity.
+    + destruct l as [|x l].
+      * simpl in E2. inversion E2. apply in_or_app. right. left. reflexivity.
+      * exfalso. inversion E2; subst x. apply Hcb. rewrite H1. apply in_or_app. right. left. reflexivity.
+Qed.
+
+Lemma sad_nodb tr : ~ In EvDestroyBegin tr -> status_at_destroy tr.
+Proof.
+  intros H before mid t st post E. exfalso. apply H. rewrite E. apply in_or_app. right. left. reflexivity.
+Qed.
+
+Lemma goodst_ST st : goodst st -> st = ST_DESTRUCTION \/ st = ST_CANCELLED.
+Proof. intros [->| ->]; [left|right]; reflexivity. Qed.
+
+(* the trace of a history that ends with ares_destroy *)
+Lemma sad_final tr radd tail :
+  ~ In EvDestroyBegin tr -> ~ In EvDestroyBegin radd -> ~ In EvDestroyBegin tail ->
+  (forall t st, ~ In (EvCb t st) tail) -> pgood (rev radd) ->
+  status_at_destroy (tr ++ EvDestroyBegin :: radd ++ tail).
+Proof.
+  intros H1 H2 H3 Ht Hg before mid t st post E Hm Hc Hr.
+  assert (Hrest : ~ In EvDestroyBegin (radd ++ tail)).
+  { intros H. apply in_app_or in H. tauto. }
+  assert (E' : tr ++ EvDestroyBegin :: (radd ++ tail) = before ++ EvDestroyBegin :: (mid ++ EvCb t st :: post)) by exact E.
+  assert (Eb : before = tr /\ mid ++ EvCb t st :: post = radd ++ tail).
+  { destruct (app_eq_app' _ _ _ _ E') as [l [[E1 E2]|[E1 E2]]].
+    - destruct l as [|x l].
+      + rewrite app_nil_r in E1. inversion E2. auto.
+      + exfalso. inversion E2; subst x. apply H1. rewrite E1. apply in_or_app. right. left. reflexivity.
+    - destruct l as [|x l].
+      + rewrite app_nil_r in E1. inversion E2. auto.
+      + exfalso. inversion E2; subst x. apply Hrest. rewrite H4. apply in_or_app. right. left. reflexivity. }
+  destruct Eb as [-> Eb].
+  destruct (app_eq_app' _ _ _ _ Eb) as [l [[E1 E2]|[E1 E2]]].
+  - exfalso. destruct l as [|x l].
+    + simpl in E2. apply (Ht t st). rewrite E2. left. reflexivity.
+    + apply (Ht t st). rewrite E2. apply in_or_app. right. left. reflexivity.
+  - destruct l as [|x l].
+    + exfalso. simpl in E2. apply (Ht t st). rewrite <- E2. left. reflexivity.
+    + inversion E2; subst x.
+      apply goodst_ST.
+      apply (Hg (rev l) (EvCb t st) (rev mid)).
+      * rewrite E1, rev_app_distr. simpl. rewrite <- app_assoc. reflexivity.
+      * intros x Hx. apply Hc. apply in_rev. exact Hx.
+Qed.
+
 Lemma input_eq_cancel i : i = IApi ACancel \/ i <> IApi ACancel.
 Proof. destruct i as [c| | |]; try (right; discriminate). destruct c; try (right; discriminate). left; reflexivity. Qed.
+
+(* the status clauses for the trace so far: no ares_destroy yet, every top-level ares_cancel closed *)
+Definition sacs (s : state) : Prop :=
+  status_at_cancel (rev (st_trace s)) /\ cclosed (rev (st_trace s)) /\ ~ In EvDestroyBegin (rev (st_trace s)).
+
+Lemma sacs_ext s s' nw : sacs s -> st_trace s' = nw ++ st_trace s -> (forall e, In e nw -> top_ev e = false) -> sacs s'.
+Proof.
+  intros [H1 [H2 H3]] E Hn. unfold sacs. rewrite E, rev_app_distr.
+  assert (Hn' : forall e, In e (rev nw) -> top_ev e = false) by (intros e He; apply Hn; apply in_rev; exact He).
+  destruct (sac_app _ (rev nw) H1 H2 (notop_nocc _ Hn')) as [A B]. split; [exact A|]. split; [exact B|].
+  intros Hin. apply in_app_or in Hin. destruct Hin as [Hin|Hin]; [contradiction|]. specialize (Hn' _ Hin). discriminate.
+Qed.
 
 Section CTop.
 Variable cf : config.
 Hypothesis Hfix : cf_fix cf = all_fixed.
 
 (* no token requested before the call is still held when ares_cancel has returned *)
-Lemma old_not_held Old s : Inv s -> Stable s -> J Old s -> tl (st_lists s) = [] -> forall t, In t Old -> ~ In t (held s).
+Lemma old_not_held Old T0 s : Inv s -> Stable s -> J Old T0 s -> tl (st_lists s) = [] -> forall t, In t Old -> ~ In t (held s).
 Proof.
   intros I St Hj Htl t Ht Hh.
   assert (Hlk : forall qo, In qo (linked s) -> In qo (heads s)).
@@ -102,7 +233,7 @@ Proof.
   unfold held in Hh. apply in_app_or in Hh. destruct Hh as [Hh|Hh].
   - unfold qheld in Hh. apply in_flat_map in Hh. destruct Hh as [qo [Hq Hin]].
     unfold qtoks in Hin. destruct (cell_of s qo) as [[q|c|h|]|] eqn:Hc; try destruct Hin.
-    destruct (j_head _ _ Hj qo q (Hlk _ Hq) Hc) as [[Hn _] _]. exact (Hn t Hin Ht).
+    destruct (j_head _ _ _ Hj qo q (Hlk _ Hq) Hc) as [[Hn _] _]. exact (Hn t Hin Ht).
   - unfold hheld in Hh. apply in_flat_map in Hh. destruct Hh as [o [_ Hin]].
     unfold htoks in Hin. destruct (shared_at s o) as [h|] eqn:Hs; [|destruct Hin].
     destruct (shared_host _ _ _ Hs) as [Hc Hp].
@@ -115,15 +246,15 @@ Proof.
     unfold href in Hf. destruct (cell_of s qo) as [[q|c|h'|]|] eqn:Hcq; try discriminate.
     destruct (kbot (q_cb q)) as [o'|] eqn:Ek; [|discriminate].
     apply Nat.eqb_eq in Hf. subst o'.
-    destruct (j_head _ _ Hj qo q (Hlk _ Hq) Hcq) as [[_ Hn] _].
+    destruct (j_head _ _ _ Hj qo q (Hlk _ Hq) Hcq) as [[_ Hn] _].
     exact (Hn o Ek h Hc t Hin Ht).
 Qed.
 
 (* the top-level ares_cancel *)
-Lemma cancel_step_cac fuel tape s RF : Inv2 s -> TokInv s [] RF -> tl (st_lists s) = [] -> cacs s ->
-  safe (step cf fuel (IApi ACancel) tape) s (fun _ s' => tl (st_lists s') = [] /\ cacs s').
+Lemma cancel_step_cac fuel tape s RF : Inv2 s -> TokInv s [] RF -> tl (st_lists s) = [] -> cacs s -> sacs s ->
+  safe (step cf fuel (IApi ACancel) tape) s (fun _ s' => tl (st_lists s') = [] /\ cacs s' /\ sacs s').
 Proof.
-  intros [I St] T Htl Hc. pose proof (all_specs cf Hfix fuel) as IH. pose proof (all_specs2 cf Hfix fuel) as IH2.
+  intros [I St] T Htl Hc Hsa. pose proof (all_specs cf Hfix fuel) as IH. pose proof (all_specs2 cf Hfix fuel) as IH2.
   unfold step.
   apply safe_bind. apply safe_modify.
   set (s1 := set_tape tape s).
@@ -142,17 +273,21 @@ Proof.
   assert (Hc2 : cacs s2).
   { apply (cacs_ext s s2 [EvCancelBegin]); auto. intros [H|[]]. discriminate. }
   set (Old := reqd s2).
-  assert (Jp : Jpre Old s2).
+  set (T0 := st_trace s2).
+  assert (Jp : Jpre Old T0 s2).
   { constructor.
     - intros qo q Ht. unfold tails in Ht. rewrite Htl2 in Ht. destruct Ht.
     - intros t Ht Ho. destruct T2 as [H1 _ _ _ _]. apply NoDup_app_iff in H1. destruct H1 as [_ [_ H1]].
-      apply (H1 t Ho). apply in_or_app. left. exact Ht. }
-  assert (SC : safe (cancel cf fuel) s2 (fun _ s' => J Old s')).
-  { destruct fuel as [|f]; [apply safe_fail|]. apply (cancel_cstep cf Hfix Old f (all_specs4 cf Hfix Old f) s2 I2 Jp). }
+      apply (H1 t Ho). apply in_or_app. left. exact Ht.
+    - exists []. split; [reflexivity|]. intros e []. }
+  assert (SC : safe (cancel cf fuel) s2 (fun _ s' => J Old T0 s')).
+  { destruct fuel as [|f]; [apply safe_fail|]. apply (cancel_cstep cf Hfix Old T0 f (all_specs4 cf Hfix Old T0 f) s2 I2 Jp). }
   apply safe_bind.
   eapply safe_mono; [apply safe_pc_both; [apply safe_both; [apply safe_both; [apply (sp_cancel _ _ IH s2 I2)|apply (tp_cancel _ _ IH2 s2 [] RF I2 T2)]|exact SC]
                                          |apply (sh_cancel _ _ (all_shape cf fuel) s2 s2 (R_refl s2))]|].
-  intros [] s3 [[[[I3 F3] T3] J3] [Rl [nw [Etr [Hnb Hne]]]]].
+  intros [] s3 [[[[I3 F3] T3] J3] [Rl [nw [Etr Hnt]]]].
+  assert (Hnb : ~ In EvCancelBegin nw) by (intros Hin; specialize (Hnt _ Hin); discriminate).
+  assert (Hne : ~ In EvCancelEnd nw) by (intros Hin; specialize (Hnt _ Hin); discriminate).
   assert (St3 : Stable s3) by exact (stable_frame _ _ _ St2 F3).
   assert (Htl3 : tl (st_lists s3) = []).
   { unfold tlrel in Rl. rewrite Htl2 in Rl. eapply f2_nil_l; eauto. }
@@ -179,7 +314,7 @@ Proof.
     { unfold reqd. rewrite Etr, req_toks_app. apply in_or_app. right. exact Hto. }
     assert (Hd : In t (deliv s3)).
     { pose proof (Permutation_in _ H2 Hr3) as Hin. rewrite app_nil_r in Hin. apply in_app_or in Hin.
-      destruct Hin as [Hin|Hin]; auto. exfalso. exact (old_not_held Old s3 I3 St3 J3 Htl3 t Hto Hin). }
+      destruct Hin as [Hin|Hin]; auto. exfalso. exact (old_not_held Old T0 s3 I3 St3 J3 Htl3 t Hto Hin). }
     assert (Hcb : 1 <= count_cb (rev (st_trace s3)) t) by (rewrite count_cb_rev; apply in_cb_toks; exact Hd).
     assert (Hrq : count_req (rev (st_trace s1)) t <= 1).
     { rewrite count_req_rev. rewrite count_perm_req.
@@ -187,13 +322,30 @@ Proof.
       { destruct T1 as [X _ _ _ _]. apply NoDup_app_iff in X. tauto. }
       apply NoDup_count_occ. exact Hnd. }
     lia. }
-  apply safe_bind. apply safe_get. destruct (st_tape s4); [apply safe_ret; split; [exact Htl3|exact Hc4]|apply safe_fail].
+  assert (Hs4 : sacs s4).
+  { destruct Hsa as [A1 [A2 A3]].
+    assert (E4 : rev (st_trace s4) = rev (st_trace s) ++ EvCancelBegin :: rev nw ++ [EvCancelEnd]).
+    { change (st_trace s4) with (EvCancelEnd :: st_trace s3). simpl rev. rewrite Etr, rev_app_distr.
+      change (st_trace s2) with (EvCancelBegin :: st_trace s). simpl. rewrite <- !app_assoc. reflexivity. }
+    assert (Hn' : forall e, In e (rev nw) -> top_ev e = false) by (intros e He; apply Hnt; apply in_rev; exact He).
+    unfold sacs. rewrite E4.
+    destruct (sac_bracket (rev (st_trace s)) (rev nw) A1 A2 (notop_nocc _ Hn')) as [B1 B2].
+    - intros t st Hin Hrq. apply in_rev in Hin.
+      destruct (j_tr _ _ _ J3) as [nw' [Etr' Hok]].
+      assert (Enw : nw' = nw) by (apply (app_inv_tail (st_trace s2)); unfold T0 in Etr'; congruence).
+      subst nw'. apply (Hok _ Hin).
+      unfold Old, reqd. change (st_trace s2) with (EvCancelBegin :: st_trace s). unfold req_toks. simpl.
+      fold (req_toks (st_trace s)). apply req_toks_rev. apply in_req_toks. exact Hrq.
+    - split; [exact B1|]. split; [exact B2|].
+      intros Hin. apply in_app_or in Hin. destruct Hin as [Hin|[Hin|Hin]]; [contradiction|discriminate|].
+      apply in_app_or in Hin. destruct Hin as [Hin|[Hin|[]]]; [|discriminate]. specialize (Hn' _ Hin). discriminate. }
+  apply safe_bind. apply safe_get. destruct (st_tape s4); [apply safe_ret; split; [exact Htl3|split; [exact Hc4|exact Hs4]]|apply safe_fail].
 Qed.
 
 (* every other step *)
-Lemma pres_step fuel i tape : i <> IApi ACancel -> Pres (step cf fuel i tape).
+Lemma pres_step fuel i tape : i <> IApi ACancel -> i <> IDestroy -> Pres (step cf fuel i tape).
 Proof.
-  intros Hi. unfold step.
+  intros Hi Hd. unfold step.
   assert (Pm : Pres (modify (set_tape tape))) by (apply pres_modify_keep; intros; split; reflexivity).
   assert (Pf : Pres (let! s := get in match st_tape s with [] => ret tt | _ => fail EDESYNC end)).
   { apply pres_bind; [apply pres_get|]. intros a. destruct (st_tape a); [apply pres_ret|apply pres_fail]. }
@@ -203,49 +355,154 @@ Proof.
     destruct c; try exact Pa. contradiction.
   - apply pres_modify_keep. intros s. unfold add_script. destruct (delivered t s); split; reflexivity.
   - apply pres_process_fds.
-  - apply pres_bind; [apply pres_emit; discriminate|intros _].
-    apply pres_bind; [apply pres_destroy|intros _]. apply pres_emit; discriminate.
+  - contradiction.
 Qed.
 
-Lemma step_cac fuel i tape s RF : Inv2 s -> i <> IDestroy -> TokInv s [] (input_toks i ++ RF) -> tl (st_lists s) = [] -> cacs s ->
-  safe (step cf fuel i tape) s (fun _ s' => (Inv2 s' /\ TokInv s' [] RF) /\ tl (st_lists s') = [] /\ cacs s').
+Lemma step_cac fuel i tape s RF : Inv2 s -> i <> IDestroy -> TokInv s [] (input_toks i ++ RF) -> tl (st_lists s) = [] -> cacs s -> sacs s ->
+  safe (step cf fuel i tape) s (fun _ s' => (Inv2 s' /\ TokInv s' [] RF) /\ tl (st_lists s') = [] /\ cacs s' /\ sacs s').
 Proof.
-  intros I Hnd T Htl Hc.
+  intros I Hnd T Htl Hc Hsa.
   destruct (input_eq_cancel i) as [->|Hi].
   - apply safe_both; [apply (step_tok cf Hfix fuel _ tape s RF I Hnd T)|].
     apply (cancel_step_cac fuel tape s RF I); auto.
   - eapply safe_mono; [apply safe_pc_both; [apply (step_tok cf Hfix fuel i tape s RF I Hnd T)
-                                            |apply (pres_step fuel i tape Hi s s (R_refl s))]|].
-    intros [] s' [H1 [Rl [nw [Etr [_ Hne]]]]]. split; [exact H1|]. split.
+                                            |apply (pres_step fuel i tape Hi Hnd s s (R_refl s))]|].
+    intros [] s' [H1 [Rl [nw [Etr Hnt]]]]. split; [exact H1|]. split; [|split].
     + unfold tlrel in Rl. rewrite Htl in Rl. eapply f2_nil_l; eauto.
-    + apply (cacs_ext s s' nw); auto.
+    + apply (cacs_ext s s' nw); auto. intros Hin. specialize (Hnt _ Hin). discriminate.
+    + apply (sacs_ext s s' nw); auto.
 Qed.
 
-Lemma destroy_step_cac fuel tape s RF : Inv2 s -> TokInv s [] RF -> cacs s ->
-  safe (step cf fuel IDestroy tape) s (fun _ s' => Done s' /\ cacs s').
+(* ares_destroy *)
+Lemma close_idle_trace f co st s c : heap_ok s -> cell_of s co = Some (CConn c) -> c_queries c = [] ->
+  safe (close_connection cf f co st) s (fun _ s' => linked s' = linked s /\ st_trace s' = st_trace s).
 Proof.
-  intros I T Hc.
-  eapply safe_mono; [apply safe_pc_both; [apply (destroy_step_tok cf Hfix fuel tape s RF I T)
-                                          |apply (pres_step fuel IDestroy tape ltac:(discriminate) s s (R_refl s))]|].
-  intros [] s' [H1 [_ [nw [Etr [_ Hne]]]]]. split; [exact H1|]. apply (cacs_ext s s' nw); auto.
+  intros Hh Hc Hq.
+  eapply safe_mono; [apply safe_pc_both; [apply (close_idle_linked cf f co st s c Hh Hc Hq)|apply (close_idle_quiet cf f co st s c Hc Hq)]|].
+  intros [] s' H. exact H.
 Qed.
 
-Lemma run_from_cac fuel h : forall s RF, Inv2 s -> TokInv s [] (hist_toks h ++ RF) -> tl (st_lists s) = [] -> cacs s ->
-  safe (run_from cf fuel h) s (fun d s' => cacs s' /\ if d then Done s' else Inv2 s' /\ TokInv s' [] RF).
+Lemma destroy_conns_quiet f n : forall s, linked s = [] -> Inv2 s ->
+  safe (destroy_conns cf f n) s (fun _ s' => st_trace s' = st_trace s).
 Proof.
-  induction h as [|[i tape] rest IHh]; intros s RF I T Htl Hc; simpl.
+  pose proof (all_specs cf Hfix f) as IH.
+  induction n as [|n IHn]; intros s El [I St]; simpl; [apply safe_fail|].
+  apply safe_bind. apply safe_get.
+  destruct (st_conns s) as [|co0 r] eqn:Ec; [apply safe_ret; reflexivity|].
+  apply safe_bind. apply safe_peek.
+  destruct (hd_error (st_tape s)) as [e|]; [|apply safe_fail].
+  destruct e; try apply safe_fail.
+  destruct (find_conn_by_sock_ok _ s sock I) as [r0 [E1 Hr]].
+  apply safe_bind. eapply safe_of_run; [exact E1|].
+  destruct r0 as [co|]; [|apply safe_fail].
+  destruct (Hr _ eq_refl) as [Hin [c [Hc Hncl]]].
+  assert (Hq : c_queries c = []).
+  { destruct (c_queries c) as [|qo l] eqn:Eq; auto. exfalso.
+    assert (Hqo : In qo (c_queries c)) by (rewrite Eq; left; reflexivity).
+    destruct (inv_connq _ _ I _ _ _ Hc Hqo) as [Hl _]. rewrite El in Hl. destruct Hl. }
+  apply safe_bind.
+  eapply safe_mono; [apply safe_both;
+       [apply (sp_close_connection _ _ IH co ARES_SUCCESS s c I Hc)
+       |apply (close_idle_trace f co ARES_SUCCESS s c (inv_heap _ _ I) Hc Hq)]|].
+  intros [] s1 [[I1 F1] [El1 Et1]].
+  eapply safe_mono; [apply IHn; [rewrite El1; exact El|split; [exact I1|exact (stable_frame _ _ _ St F1)]]|].
+  intros [] s2 E2. rewrite E2. exact Et1.
+Qed.
+
+Lemma destroy_dk f s : Inv2 s -> safe (destroy cf f) s (dpost s).
+Proof.
+  intros [I St]. unfold destroy.
+  apply safe_bind. apply safe_modify.
+  set (s1 := set_destroying true s).
+  assert (E1 : core_eq s s1) by apply core_eq_set_destroying.
+  assert (I1 : Inv2 s1) by (split; [apply (inv_core _ _ _ E1); auto|apply (stable_core _ _ E1); auto]).
+  apply safe_bind. apply safe_get. rewrite (fx_unlink_true cf Hfix).
+  apply safe_bind.
+  eapply safe_mono; [apply safe_pc_both; [apply (destroy_loop_ok cf Hfix f f s1 I1)|apply (destroy_loop_dk cf Hfix f f s1)]|].
+  intros [] s2 [I2 D2]. apply safe_bind. apply safe_get.
+  destruct (concat (st_lists s2)) as [|x l] eqn:El; [|apply safe_fail].
+  destruct (st_byqid s2); [|apply safe_fail]. destruct (st_bytmo s2); [|apply safe_fail]. simpl.
+  eapply safe_mono; [apply (destroy_conns_quiet f f s2 El I2)|].
+  intros [] s3 E3. destruct D2 as [add [E2 G2]]. exists add. rewrite E3. split; [exact E2|exact G2].
+Qed.
+
+Lemma destroy_step_trace fuel tape s : Inv2 s ->
+  safe (step cf fuel IDestroy tape) s
+       (fun _ s' => exists add, st_trace s' = EvDestroyEnd :: add ++ EvDestroyBegin :: st_trace s
+                                /\ (forall e, In e add -> top_ev e = false) /\ pgood add).
+Proof.
+  intros [I St]. unfold step.
+  apply safe_bind. apply safe_modify.
+  set (s1 := set_tape tape s).
+  assert (E1 : core_eq s s1) by apply core_eq_set_tape.
+  apply safe_bind. apply safe_bind. apply safe_emit.
+  set (s2 := set_trace (EvDestroyBegin :: st_trace s1) s1).
+  assert (E2 : core_eq s1 s2) by apply core_eq_set_trace.
+  assert (I2 : Inv2 s2).
+  { split; [apply (ce_inv _ _ _ E2); apply (ce_inv _ _ _ E1); auto|apply (stable_core _ _ E2); apply (stable_core _ _ E1); auto]. }
+  apply safe_bind.
+  eapply safe_mono; [apply safe_pc_both; [apply (destroy_dk fuel s2 I2)|apply (pres_destroy cf fuel s2 s2 (R_refl s2))]|].
+  intros [] s3 [[add [Ea Ga]] [_ [nw [En Hn]]]].
+  assert (Eq : add = nw) by (apply (app_inv_tail (st_trace s2)); rewrite <- Ea; exact En).
+  subst add. apply safe_emit. apply safe_bind. apply safe_get. simpl.
+  destruct (st_tape s3); [|apply safe_fail]. apply safe_ret.
+  exists nw. split; [|split; auto]. simpl. rewrite En. reflexivity.
+Qed.
+
+(* what the trace of the final ares_destroy adds *)
+Definition Fin (s s' : state) : Prop :=
+  exists add, st_trace s' = EvDestroyEnd :: add ++ EvDestroyBegin :: st_trace s
+              /\ (forall e, In e add -> top_ev e = false) /\ pgood add.
+
+Lemma destroy_step_cac fuel tape s RF : Inv2 s -> TokInv s [] RF ->
+  safe (step cf fuel IDestroy tape) s (fun _ s' => Done s' /\ Fin s s').
+Proof.
+  intros I T.
+  apply safe_both; [apply (destroy_step_tok cf Hfix fuel tape s RF I T)|apply (destroy_step_trace fuel tape s I)].
+Qed.
+
+(* the three trace properties at the end of the run *)
+Definition endok (tr : list event) : Prop := complete_at_cancel tr /\ status_at_cancel tr /\ status_at_destroy tr.
+
+Lemma fin_endok s s' tail : cacs s -> sacs s -> Fin s s' -> tail = [] \/ tail = [EvEnd] ->
+  endok (rev (st_trace s') ++ tail).
+Proof.
+  intros Hc [A1 [A2 A3]] [add [E [Hn Hg]]] Ht.
+  assert (Er : rev (st_trace s') ++ tail = rev (st_trace s) ++ (EvDestroyBegin :: rev add ++ EvDestroyEnd :: tail)).
+  { rewrite E. simpl. rewrite rev_app_distr. simpl. rewrite <- !app_assoc. simpl. reflexivity. }
+  assert (Hn' : forall e, In e (rev add) -> top_ev e = false) by (intros e He; apply Hn; apply in_rev; exact He).
+  assert (Hcc : nocc (EvDestroyBegin :: rev add ++ EvDestroyEnd :: tail)).
+  { destruct (notop_nocc _ Hn') as [N1 N2].
+    split; intros [H|H]; try discriminate; apply in_app_or in H; destruct H as [H|[H|H]]; try contradiction; try discriminate;
+      destruct Ht as [->| ->]; simpl in H; intuition discriminate. }
+  rewrite Er. split; [|split].
+  - apply cacs_app; [exact Hc|exact (proj2 Hcc)].
+  - exact (proj1 (sac_app _ _ A1 A2 Hcc)).
+  - apply sad_final; auto.
+    + intros Hin. specialize (Hn' _ Hin). discriminate.
+    + destruct Ht as [->| ->]; simpl; intuition discriminate.
+    + intros t st. destruct Ht as [->| ->]; simpl; intuition discriminate.
+    + rewrite rev_involutive. exact Hg.
+Qed.
+
+Lemma run_from_cac fuel h : forall s RF, Inv2 s -> TokInv s [] (hist_toks h ++ RF) -> tl (st_lists s) = [] -> cacs s -> sacs s ->
+  safe (run_from cf fuel h) s (fun d s' => if d then exists s0, cacs s0 /\ sacs s0 /\ Fin s0 s'
+                                           else (Inv2 s' /\ TokInv s' [] RF) /\ cacs s' /\ sacs s').
+Proof.
+  induction h as [|[i tape] rest IHh]; intros s RF I T Htl Hc Hsa; simpl.
   - apply safe_ret. simpl in T. auto.
   - simpl in T. unfold hist_toks in T. simpl in T. rewrite <- app_assoc in T.
     fold (hist_toks rest) in T.
     assert (G : i <> IDestroy -> safe (step cf fuel i tape;; run_from cf fuel rest) s
-                 (fun d s' => cacs s' /\ if d then Done s' else Inv2 s' /\ TokInv s' [] RF)).
+                 (fun d s' => if d then exists s0, cacs s0 /\ sacs s0 /\ Fin s0 s'
+                              else (Inv2 s' /\ TokInv s' [] RF) /\ cacs s' /\ sacs s')).
     { intros Hnd. apply safe_bind.
       eapply safe_mono; [apply (step_cac fuel i tape s (hist_toks rest ++ RF) I); auto|].
-      intros [] s1 [[I1 T1] [Htl1 Hc1]]. apply IHh; auto. }
+      intros [] s1 [[I1 T1] [Htl1 [Hc1 Hs1]]]. apply IHh; auto. }
     destruct i; try (apply G; discriminate).
     apply safe_bind. simpl in T.
-    eapply safe_mono; [apply (destroy_step_cac fuel tape s (hist_toks rest ++ RF) I T Hc)|].
-    intros [] s1 [D1 Hc1]. apply safe_ret. auto.
+    eapply safe_mono; [apply (destroy_step_cac fuel tape s (hist_toks rest ++ RF) I T)|].
+    intros [] s1 [D1 F1]. apply safe_ret. exists s. auto.
 Qed.
 
 End CTop.
@@ -253,27 +510,36 @@ End CTop.
 Lemma init_cacs cf : cacs (init_state cf).
 Proof. intros before mid post E. destruct before; discriminate. Qed.
 
-Theorem run_complete_at_cancel cf fuel h final tr :
+Lemma init_sacs cf : sacs (init_state cf).
+Proof.
+  split; [|split].
+  - intros before mid t st post E. destruct before; discriminate.
+  - intros before mid E. destruct before; discriminate.
+  - intros [].
+Qed.
+
+Theorem run_endok cf fuel h final tr :
   cf_fix cf = all_fixed -> NoDup (hist_toks h) ->
-  run cf fuel h final = Ok tr -> complete_at_cancel tr.
+  run cf fuel h final = Ok tr -> endok tr.
 Proof.
   intros Hfix Hn Hrun. unfold run in Hrun.
   assert (S : safe (let! destroyed := run_from cf fuel h in
                     (if destroyed then ret tt else step cf fuel IDestroy final);; emit EvEnd)
-                   (init_state cf) (fun _ s => complete_at_cancel (rev (st_trace s)))).
+                   (init_state cf) (fun _ s => endok (rev (st_trace s)))).
   { apply safe_bind.
     eapply safe_mono; [apply (run_from_cac cf Hfix fuel h (init_state cf) [] (init_inv cf))|].
     - rewrite app_nil_r. apply init_tokinv. exact Hn.
     - reflexivity.
     - apply init_cacs.
-    - intros d s1 [Hc1 H1]. apply safe_bind.
-      assert (Fin : forall s2, cacs s2 -> safe (emit EvEnd) s2 (fun _ s => complete_at_cancel (rev (st_trace s)))).
-      { intros s2 Hc2. apply safe_emit. apply (cacs_ext s2 _ [EvEnd]); auto. intros [H|[]]. discriminate. }
+    - apply init_sacs.
+    - intros d s1 H1. apply safe_bind.
       destruct d.
-      + apply safe_ret. apply Fin. exact Hc1.
-      + destruct H1 as [I1 T1].
-        eapply safe_mono; [apply (destroy_step_cac cf Hfix fuel final s1 [] I1 T1 Hc1)|].
-        intros [] s2 [_ Hc2]. apply Fin. exact Hc2. }
+      + (* the history destroyed the channel: only EvEnd follows *)
+        destruct H1 as [s0 [C1 [C2 C3]]].
+        apply safe_ret. apply safe_emit. simpl. exact (fin_endok s0 s1 [EvEnd] C1 C2 C3 (or_intror eq_refl)).
+      + destruct H1 as [[I1 T1] [Hc1 Hs1]].
+        eapply safe_mono; [apply (destroy_step_cac cf Hfix fuel final s1 [] I1 T1)|].
+        intros [] s2 [_ F2]. apply safe_emit. simpl. exact (fin_endok s1 s2 [EvEnd] Hc1 Hs1 F2 (or_intror eq_refl)). }
   unfold safe in S.
   destruct ((let! destroyed := run_from cf fuel h in
              (if destroyed then ret tt else step cf fuel IDestroy final);; emit EvEnd) (init_state cf))
@@ -281,11 +547,23 @@ Proof.
   inversion Hrun; subst. exact S.
 Qed.
 
-(* all four parts of the monitor's reading *)
+Theorem run_complete_at_cancel cf fuel h final tr :
+  cf_fix cf = all_fixed -> NoDup (hist_toks h) ->
+  run cf fuel h final = Ok tr -> complete_at_cancel tr.
+Proof. intros H1 H2 H3. exact (proj1 (run_endok cf fuel h final tr H1 H2 H3)). Qed.
+
+(* the status with which requests end inside ares_cancel / ares_destroy *)
+Theorem run_status_ok cf fuel h final tr :
+  cf_fix cf = all_fixed -> NoDup (hist_toks h) ->
+  run cf fuel h final = Ok tr -> status_ok tr.
+Proof. intros H1 H2 H3. exact (proj2 (run_endok cf fuel h final tr H1 H2 H3)). Qed.
+
+(* everything both oracles judge *)
 Theorem run_trace_ok_full cf fuel h final tr :
   cf_fix cf = all_fixed -> NoDup (hist_toks h) ->
-  run cf fuel h final = Ok tr -> trace_ok tr.
+  run cf fuel h final = Ok tr -> trace_ok tr /\ status_ok tr.
 Proof.
   intros H1 H2 H3. destruct (run_trace_ok cf fuel h final tr H1 H2 H3) as [A [B C]].
+  split; [|eapply run_status_ok; eauto].
   split; [exact A|]. split; [exact B|]. split; [exact C|]. eapply run_complete_at_cancel; eauto.
 Qed.
